@@ -50,7 +50,10 @@ VALUES = ("s0", 0, "")
 MECHS = ("deepcopy", "pickle", "deepcopy-of-deepcopy", "pickle-of-deepcopy",
          # the model owns its machine (model.owner = sm, the MachineMixin shape) and it is the
          # model that is copied: the machine is reached through it
-         "deepcopy-via-model", "pickle-via-model")
+         "deepcopy-via-model", "pickle-via-model",
+         # the stored value was wiped behind the machine's back (model.state = None) before the
+         # copy: the clone is as unusable as the original, it does not start over
+         "deepcopy-wiped", "pickle-wiped")
 
 
 def clone_of(sm, mech):
@@ -60,6 +63,10 @@ def clone_of(sm, mech):
         return pickle.loads(pickle.dumps(sm))
     if mech == "deepcopy-of-deepcopy":
         return copy.deepcopy(copy.deepcopy(sm))
+    if mech == "deepcopy-wiped":
+        return copy.deepcopy(sm)
+    if mech == "pickle-wiped":
+        return pickle.loads(pickle.dumps(sm))
     if mech == "deepcopy-via-model":
         return copy.deepcopy(sm.model).owner
     if mech == "pickle-via-model":
@@ -159,6 +166,11 @@ def run_case(ci, hist, cut, mech, suf_o, suf_c, order):
         sm.model.visited = {st for st in cstates if st.id != "s2"} | \
             {type(sm).states_map[sm.current_state_value]}
         sm.model.by_state = {st: st.id for st in cstates}
+    wiped = mech.endswith("-wiped")
+    if wiped:
+        if sm.current_state_value is None:
+            return None, steps          # (not activated yet: nothing to wipe)
+        setattr(sm.model, field, None)
     env = p.impl.env
     env.top, env.stack, env.flat = [], [], []
     CUR.env = env          # a callback run by the copy itself is recorded, not lost
@@ -172,6 +184,18 @@ def run_case(ci, hist, cut, mech, suf_o, suf_c, order):
         return (f"taking the copy ({mech}) ran callbacks: "
                 f"{[r.brief() for r in env.flat][:4]}"), steps
     steps += 1
+    if wiped:
+        from statemachine.exceptions import InvalidStateValue
+        for who, m_ in (("original", sm), ("clone", csm)):
+            try:
+                got = m_.current_state.id
+            except InvalidStateValue:
+                continue
+            return (f"the stored value was wiped before the copy: the {who} reports the current "
+                    f"state {got!r} instead of raising InvalidStateValue"), steps
+        if getattr(csm.model, field, "<missing>") is not None:
+            return f"the clone's model holds {getattr(csm.model, field)!r} after a wiped copy", steps
+        return None, steps
     if csm is sm:
         return "the copy is the same object", steps
     if options(csm) != options(sm):
